@@ -396,3 +396,53 @@ def c06_r5(ctx):
         pubs = [c for c in norm.calls_in(f.node) if norm.call_name(c) == "_commit_toc"]
         ctx.ob(f, bool(pubs) and bad is None, "every path to _commit_toc finalized/assembled the current segment or knows nothing was added",
                path=cfgmod.path_text(bad) if bad else None)
+
+
+@rule("C06", "R7", "K2", "the single-segment shortcut of the term merge yields the head it already pulled",
+      min_instances=1, also=("C01",),
+      clause="MultiReader._merge_terms pulls one head term from every sub-iterator before it looks at how many are active. Wherever it "
+             "then drains one sub-iterator directly (a `for t in <iterator>` whose body yields t, instead of going through the heap), a "
+             "yield of the pulled head -- an expression that reads the head list -- comes first on that path; else the first term of the "
+             "only segment that has terms at or after the start is lost (lexicon, expand_prefix, terms_from all go through here).")
+def c06_r7(ctx):
+    prog = ctx.prog
+    f = prog.method("reading.MultiReader", "_merge_terms", inherited=False)
+    ctx.saw(f)
+    fpos = norm.source_pos(f.node)
+    # the list that receives the heads:  <list>.append((term, ...)) with term = next(it)
+    heads = set()
+    for c in norm.calls_in(f.node):
+        if norm.call_name(c) == "append" and c.args and isinstance(c.args[0], ast.Tuple) and isinstance(c.func.value, ast.Name):
+            heads.add(c.func.value.id)
+    if not heads:
+        raise AnalysisError("_merge_terms: the list of head terms was not found")
+    n = 0
+    for br in ast.walk(f.node):
+        if not isinstance(br, ast.If):
+            continue
+        drains = []
+        for x in br.body:
+            if isinstance(x, ast.For):
+                ys = [y for y in ast.walk(x) if isinstance(y, ast.Yield)]
+                if ys and isinstance(x.target, ast.Name) and all(isinstance(y.value, ast.Name) and y.value.id == x.target.id for y in ys):
+                    drains.append((x, x.iter))
+            elif isinstance(x, ast.Expr) and isinstance(x.value, ast.YieldFrom):
+                drains.append((x, x.value.value))
+        for lp, it in drains:
+            n += 1
+            before = [st for st in br.body if fpos(st) < fpos(lp)]
+            ok = False
+            for st in before:
+                for y in ast.walk(st):
+                    if isinstance(y, ast.Yield) and y.value is not None:
+                        t = norm.deep_canon(y.value, f.node)
+                        if any(h in norm.names_in(norm.parse_expr(t)) for h in heads) or \
+                                any(isinstance(d, ast.Assign) and any(h in norm.names_in(d.value) for h in heads) and
+                                    any(isinstance(z, ast.Name) and z.id in norm.names_in(y.value) for t_ in d.targets for z in ast.walk(t_))
+                                    for d in before):
+                            ok = True
+            ctx.ob(f, ok, "the head already pulled from the iterator is yielded before the iterator is drained directly",
+                   detail="drains %s" % norm.canon(it), loc=ctx.nodeloc(f, lp))
+    if n < 1:
+        ctx.note("C06-R7: _merge_terms has no direct drain of a sub-iterator (every term goes through the heap)")
+        ctx.ob(f, True, "no shortcut that drains a sub-iterator directly")
